@@ -46,7 +46,10 @@ NewCases ==
       cert |-> Pattern(2, 30), sig |-> Pattern(3, 70)] : h \in {0, 5, 255}, s \in {1, 100, 200}, kh \in {0, 64, 255}}
 
 \* the parts are opaque: contents that LOOK like DER / CBOR / padding must be copied verbatim
-Opaque(n) == {DerLike(n), DerShort(n), CborLike(n), Rep(255, n), Rep(0, n)}
+\* (a DER object followed by erased-flash padding, by zeros, a chain of objects, a cut-off object)
+DerPad(n, fill) == IF n >= 12 THEN <<48, 130, 0, 4, 1, 2, 3, 4>> \o Rep(fill, n - 8) ELSE Rep(48, n)
+DerBig(n, fill) == IF n >= 600 THEN <<48, 130, 1, 244>> \o Rep(7, 500) \o Rep(fill, n - 504) ELSE Rep(48, n)
+Opaque(n) == {DerLike(n), DerShort(n), CborLike(n), Rep(255, n), Rep(0, n), DerPad(n, 255), DerPad(n, 0), DerBig(n, 255), DerBig(n, 0)}
 OpaqueCases ==
     {UCase([Reg(5, 10, 0, 70) EXCEPT !.cert = c], << >>, 1500, "register-opaque-cert") : c \in Opaque(300) \cup Opaque(20) \cup Opaque(1024)}
     \cup {UCase([Reg(5, 0, 40, 0) EXCEPT !.keyHandle = k, !.sig = g], <<170>>, 1500, "register-opaque-parts") : k \in Opaque(64), g \in Opaque(72)}
